@@ -49,9 +49,26 @@ fn left_anchored_family(r: &mut Rng) -> Vec<String> {
     }
     v
 }
+/// Plain rules anchored on BOTH sides (`|https://host/a|`: the URL must equal the pattern), several
+/// of the same length and of different lengths under one option set; the test URLs are the patterns.
+fn exact_match_family(r: &mut Rng) -> Vec<String> {
+    let n = r.range(2, 6);
+    let o = r.pick(&["", "$script", "$image,third-party"]);
+    let host = r.pick(gen::HOSTS);
+    let stem = r.pick(gen::VOCAB);
+    let mut v = vec![];
+    for i in 0..n {
+        let tail = match r.below(3) { 0 => format!("{}", (b'a' + (i as u8)) as char), 1 => format!("{}{}", (b'a' + (i as u8)) as char, r.pick(&["", "1", "/x"])), _ => format!("{}.js", (b'a' + (i as u8)) as char) };
+        v.push(format!("|https://{}/{}/{}|{}", host, stem, tail, o));
+    }
+    v
+}
 fn fusable(r: &mut Rng) -> Vec<String> {
     if r.chance(1, 25) {
         return big_group(r);
+    }
+    if r.chance(1, 12) {
+        return exact_match_family(r);
     }
     if r.chance(1, 12) {
         return left_anchored_family(r);
@@ -105,6 +122,16 @@ fn fusable(r: &mut Rng) -> Vec<String> {
         if !pat.is_empty() {
             let other = if base.contains("$script") { "$image" } else { "$script" };
             v.push(format!("{}{}", pat, other));
+        }
+    }
+    // tag-only twins: a rule of the list again, identical except for its tag (or with a tag where it
+    // had none); only one of the two tags may be enabled at query time
+    if r.chance(1, 3) && !v.is_empty() {
+        let base = v[r.below(v.len())].clone();
+        if !base.contains("match-case") {
+            let twin = if base.contains("tag=t1") { base.replace("tag=t1", "tag=t2") } else if base.contains("tag=t2") { base.replace("tag=t2", "tag=t1") }
+                else if base.contains('$') { format!("{},tag={}", base, r.pick(&["t1", "t2"])) } else { format!("{}$tag={}", base, r.pick(&["t1", "t2"])) };
+            if r.chance(1, 2) { v.push(twin) } else { v.insert(0, twin) }
         }
     }
     // rules dispatched per source domain (no pattern token, several domains) are held by several
@@ -220,6 +247,16 @@ fn main() {
         let (o0, o1, o2) = (observe(&off, &rs, &req), observe(&on, &rs, &req), observe(&live, &rs, &req));
         println!("unoptimized: {:?}\noptimized:   {:?}\noptimize():  {:?}", o0, o1, o2);
         let mut ext_bad = false;
+        if rp["engine"].as_bool().unwrap_or(false) {
+            let mk = |optimize: bool| -> adblock::Engine {
+                let mut e = adblock::Engine::from_rules_parametrised(lines.iter(), Default::default(), false, optimize);
+                e.use_tags(&tr);
+                e
+            };
+            let (a, b) = (mk(false).check_network_request(&req), mk(true).check_network_request(&req));
+            println!("Engine without optimisation: matched={} filter={:?}; with: matched={} filter={:?}", a.matched, a.filter, b.matched, b.filter);
+            ext_bad = (a.matched, a.important, a.exception.is_some(), a.filter.is_some(), a.rewritten_url.clone()) != (b.matched, b.important, b.exception.is_some(), b.filter.is_some(), b.rewritten_url.clone());
+        }
         if rp["warm"].as_bool().unwrap_or(false) {
             let mut warmed = Blocker::new(parse_all(&lines), &BlockerOptions { enable_optimizations: false });
             warmed.use_tags(&tr);
@@ -294,7 +331,7 @@ fn main() {
             after.iter().zip(before.iter()).any(|(x, y)| x.1.len() < y.1.len()),
         );
         // ---- oracle
-        let tagsets: [&[&str]; 3] = [&[], &["t1"], &["t1", "t2"]];
+        let tagsets: [&[&str]; 4] = [&[], &["t1"], &["t1", "t2"], &["t2"]];
         for (ti, tags) in tagsets.iter().enumerate() {
             let (off, on, live) = blockers(&lines, tags);
             if ti == 1 {
@@ -359,6 +396,24 @@ fn main() {
                     if o3 != o0 && !has_bad_regex(&lines) {
                         sm.failure(None, &format!("unoptimized {:?} / optimize() on the first {} rules, then add_filter of the rest {:?}", o0.v, cut, o3.v),
                             json!({"rules": lines, "tags": tags, "cut": cut, "url": url, "source": src, "type": ty}));
+                    }
+                }
+                // the same comparison one level up: Engine::from_rules_parametrised with and without
+                // optimisation (the constructor every list loader goes through)
+                {
+                    let mk = |optimize: bool| -> adblock::Engine {
+                        let mut e = adblock::Engine::from_rules_parametrised(lines.iter(), Default::default(), false, optimize);
+                        e.use_tags(tags);
+                        e
+                    };
+                    let (e0, e1) = (mk(false), mk(true));
+                    let (a, b) = (e0.check_network_request(&req), e1.check_network_request(&req));
+                    let bits = |x: &adblock::blocker::BlockerResult| (x.matched, x.important, x.exception.is_some(), x.filter.is_some(), x.rewritten_url.clone());
+                    sm.oracle_evaluations += 1;
+                    cs.stat("engine_level_on_off");
+                    if bits(&a) != bits(&b) && !has_bad_regex(&lines) {
+                        sm.failure(None, &format!("Engine built without optimisation answers {:?}, built with optimisation {:?}", bits(&a), bits(&b)),
+                            json!({"rules": lines, "tags": tags, "engine": true, "url": url, "source": src, "type": ty}));
                     }
                 }
                 if o0 != o1 || o0 != o2 {
